@@ -1,9 +1,12 @@
 """unit c10_writers — the writers of the member / operator / type / metatable indexes establish the invariants that
 `remove` (unit c10_remove2) relies on (C10)."""
+import os
 SRC = 'crates/emmylua_code_analysis/src/'
+
 DB = SRC + 'db_index/'
 
 HASH = 'broadcast use vstd::std_specs::hash::group_hash_axioms;'
+SPIN = '#[verifier::spinoff_prover]'
 
 
 def st(file, name, attrs=None, **kw):
@@ -81,16 +84,16 @@ ITEMS = {
             // the file's bookkeeping set gains exactly this object; every other file's set is untouched
             inf_added(old(self).in_filed@, final(self).in_filed@, file_id, member_or_owner) /*@C10.member.bookkeeping-records-object-under-file*/'''),
     'LuaMemberIndex::set_member_owner': fn(
-        MB, 'LuaMemberIndex', 'set_member_owner', body_first=HASH,
+        MB, 'LuaMemberIndex', 'set_member_owner', body_first=HASH, attrs=SPIN,
         requires='''keys_ok(), mwf(old(self)),
             // the member is known to the index (call sites: ids taken from `members` / just added); without this the new
             // `member_current_owner` entry is one that `remove` never sweeps (see the unit's findings)
             inf_has(old(self).in_filed@, id.file_id, MemberOrOwner::Member(id))''',
         proof=[(r'self\.add_in_file_object\(file_id, MemberOrOwner::Owner\(owner\)\);', 'before',
                 '''let ghost mco1 = self.member_current_owner@; let ghost inf0 = self.in_filed@;
-        proof { lemma_wf_set_current_owner(old(self).members@, old(self).member_current_owner@, old(self).owner_members@, inf0, id, owner); }'''),
+        proof { lemma_wf_set_current_owner(old(self).members@, old(self).member_current_owner@, old(self).owner_members@, inf0, id, owner); /*@C10.member.writer-wf.set_member_owner.step-current-owner*/ }'''),
                (r'self\.add_in_file_object\(file_id, MemberOrOwner::Owner\(owner\)\);', 'after',
-                'proof { lemma_wf_record_owner(self.members@, mco1, self.owner_members@, inf0, self.in_filed@, file_id, owner); }')],
+                'proof { lemma_wf_record_owner(self.members@, mco1, self.owner_members@, inf0, self.in_filed@, file_id, owner); /*@C10.member.writer-wf.set_member_owner.step-owner*/ }')],
         ensures=', '.join([MEM_FRAME, OWN_FRAME]) + ''',
             mwf(final(self)) /*@C10.member.writer-wf.set_member_owner*/,
             inf_has(final(self).in_filed@, file_id, MemberOrOwner::Owner(owner)) /*@C10.member.writer-records-owner-for-file.set_member_owner*/,
@@ -99,7 +102,7 @@ ITEMS = {
 
 ITEMS.update({
     'LuaMemberIndex::add_member_to_owner': fn(
-        MB, 'LuaMemberIndex', 'add_member_to_owner', body_first=HASH,
+        MB, 'LuaMemberIndex', 'add_member_to_owner', body_first=HASH + ' broadcast use lemma_wf_own_ext_b;', attrs=SPIN,
         requires='''keys_ok(), mwf(old(self)),
             // Owner(owner) is recorded under the member's own file BEFORE the id is filed under the owner (add_member and every
             // set_member_owner(owner, member_id.file_id, member_id) + add_member_to_owner(owner, member_id) pair do that)
@@ -108,16 +111,16 @@ ITEMS.update({
             own_ext(old(self).owner_members@, final(self).owner_members@, owner, id) /*@C10.member.add_member_to_owner.touches-only-that-owner*/,
             mwf(final(self)) /*@C10.member.every-item-is-swept*/'''),
     'LuaMemberIndex::add_member': fn(
-        MB, 'LuaMemberIndex', 'add_member', body_first=HASH + ' let ghost m0 = member;', ret='r',
+        MB, 'LuaMemberIndex', 'add_member', body_first=HASH + ' let ghost m0 = member;', ret='r', attrs=SPIN,
         requires='keys_ok(), mwf(old(self))',
         proof=[
             (r'self\.add_in_file_object\(file_id, MemberOrOwner::Member\(id\)\);', 'after',
-             'proof { lemma_wf_record_member(' + OLD4 + ', self.in_filed@, id, m0); }'),
+             'proof { lemma_wf_record_member(' + OLD4 + ', self.in_filed@, id, m0); /*@C10.member.writer-wf.add_member.step-member*/ }'),
             (r'self\.member_current_owner\.insert\(id, owner\.clone\(\)\);', 'after',
              '''let ghost inf1 = self.in_filed@;
-            proof { lemma_wf_set_current_owner(self.members@, old(self).member_current_owner@, self.owner_members@, inf1, id, owner); }'''),
+            proof { lemma_wf_set_current_owner(self.members@, old(self).member_current_owner@, self.owner_members@, inf1, id, owner); /*@C10.member.writer-wf.add_member.step-current-owner*/ }'''),
             (r'self\.add_in_file_object\(file_id, MemberOrOwner::Owner\(owner\.clone\(\)\)\);', 'after',
-             'proof { lemma_wf_record_owner(self.members@, self.member_current_owner@, self.owner_members@, inf1, self.in_filed@, file_id, owner); }'),
+             'proof { lemma_wf_record_owner(self.members@, self.member_current_owner@, self.owner_members@, inf1, self.in_filed@, file_id, owner); /*@C10.member.writer-wf.add_member.step-owner*/ }'),
         ],
         ensures='''r == member.member_id,
             mwf(final(self)) /*@C10.member.writer-wf.add_member*/,
@@ -128,22 +131,284 @@ ITEMS.update({
 TY = 'type/mod.rs'
 ITEMS.update({
     'LuaTypeOwner': {'src': {'file': DB + 'type/type_owner.rs', 'kind': 'enum', 'name': 'LuaTypeOwner'}, 'attrs': '#[derive(PartialEq, Eq, Hash)]'},
-    'LuaTypeOwner::get_file_id': fn('type/type_owner.rs', 'LuaTypeOwner', 'get_file_id', ret='r', ensures='r == owner_file(*self)'),
+    'LuaTypeOwner::get_file_id': fn('type/type_owner.rs', 'LuaTypeOwner', 'get_file_id', ret='r', ensures='r == owner_file(*self) /*@C10.type.owner-file-is-the-file-of-its-id*/'),
     'LuaDeclLocation': st('type/type_decl.rs', 'LuaDeclLocation', keep=['file_id', 'range']),
     'LuaTypeDecl': st('type/type_decl.rs', 'LuaTypeDecl', keep=['simple_name', 'locations', 'id']),
     'LuaTypeIndex': st(TY, 'LuaTypeIndex'),
 })
 
+OP = 'operators/mod.rs'
+OP_ID = '(LuaOperatorId { file_id: operator.file_id, position: operator.range.start })'
+ITEMS.update({
+    'LuaOperatorIndex': st(OP, 'LuaOperatorIndex'),
+    'LuaOperatorIndex::new': fn(OP, 'LuaOperatorIndex', 'new', ret='r',
+                                ensures='owf(&r) && table_owners_cofiled(r.type_operators_map@) /*@C10.operator.writer-wf.new*/'),
+    'LuaOperatorIndex::add_operator': fn(
+        OP, 'LuaOperatorIndex', 'add_operator', attrs=SPIN, body_first=HASH + ' let ghost op0 = operator;',
+        requires='''keys_ok(), owf(old(self)),
+            // the operator id (file + start offset of the tag / field / name token) is new, or is re-registered for the same owner and
+            // meta method: otherwise the old (owner, op) vector keeps an id that `remove` never cleans (see lemma_op_add)
+            old(self).operators@.contains_key(%(id)s) ==> old(self).operators@[%(id)s].owner == operator.owner && old(self).operators@[%(id)s].op == operator.op''' % {'id': OP_ID},
+        proof=[(r'\}\s*$', 'before', '''proof {
+            lemma_op_add(old(self).operators@, old(self).type_operators_map@, old(self).in_filed_operator_map@,
+                self.type_operators_map@, self.in_filed_operator_map@, id, op0); /*@C10.operator.writer-wf.step*/
+            let l = self.in_filed_operator_map@[id.file_id]@; assert(l[l.len() - 1] == id);
+        }''')],
+        ensures='''
+            owf(final(self)) /*@C10.operator.writer-wf*/,
+            final(self).in_filed_operator_map@.contains_key(operator.file_id)
+                && final(self).in_filed_operator_map@[operator.file_id]@.contains(%(id)s) /*@C10.operator.writer-records-id-for-file*/,
+            // operators of a setmetatable table stay in the table's file when the caller registers them there
+            table_owners_cofiled(old(self).type_operators_map@) && (operator.owner matches LuaOperatorOwner::Table(x) ==> x.file_id == operator.file_id)
+                ==> table_owners_cofiled(final(self).type_operators_map@) /*@C10.operator.writer-table-owners-cofiled*/''' % {'id': OP_ID}),
+})
+
+NAMES3 = 'old(self).global_name_type_map@, final(self).global_name_type_map@, old(self).internal_name_type_map@, final(self).internal_name_type_map@, old(self).local_name_type_map@, final(self).local_name_type_map@'
+TWINV = 'keys_ok(), type_winv(old(self))'
+ITEMS.update({
+    'InFiled::new': {'src': {'file': SRC + 'vfs/file_id.rs', 'kind': 'fn', 'impl': 'InFiled', 'name': 'new'}, 'ret': 'r',
+                     'ensures': 'r.file_id == file_id && r.value == value'},
+    'LuaTypeDecl::get_id': fn('type/type_decl.rs', 'LuaTypeDecl', 'get_id', ret='r', ensures='r == self.id'),
+    'LuaTypeDecl::merge_decl': fn('type/type_decl.rs', 'LuaTypeDecl', 'merge_decl', rules=[('vec-extend-vec', {'count': 1})],
+                                  ensures='final(self).locations@ == old(self).locations@ + other.locations@, final(self).simple_name == old(self).simple_name, final(self).id == old(self).id'),
+    'LuaTypeIndex::new': fn(TY, 'LuaTypeIndex', 'new', ret='r', ensures='type_winv(&r) /*@C10.type.writer-wf.new*/'),
+    'LuaTypeIndex::add_file_namespace': fn(
+        TY, 'LuaTypeIndex', 'add_file_namespace', requires=TWINV, body_first=HASH,
+        ensures='''type_winv(final(self)) /*@C10.type.writer-wf.add_file_namespace*/,
+            final(self).file_namespace@ == old(self).file_namespace@.insert(file_id, namespace) /*@C10.type.namespace-keyed-by-its-file*/,
+            names_frame(old(self), final(self)),
+            final(self).file_using_namespace == old(self).file_using_namespace && final(self).file_types == old(self).file_types'''),
+    'LuaTypeIndex::add_file_using_namespace': fn(
+        TY, 'LuaTypeIndex', 'add_file_using_namespace', requires=TWINV, body_first=HASH,
+        ensures='''type_winv(final(self)) /*@C10.type.writer-wf.add_file_using_namespace*/,
+            final(self).file_using_namespace@.contains_key(file_id)
+                && forall|g: FileId| g != file_id ==> #[trigger] final(self).file_using_namespace@.contains_key(g) == old(self).file_using_namespace@.contains_key(g)
+                    && (old(self).file_using_namespace@.contains_key(g) ==> final(self).file_using_namespace@[g] == old(self).file_using_namespace@[g]) /*@C10.type.using-namespace-keyed-by-its-file*/,
+            names_frame(old(self), final(self)), final(self).file_namespace == old(self).file_namespace && final(self).file_types == old(self).file_types'''),
+    'LuaTypeIndex::index_type_decl_name': fn(
+        TY, 'LuaTypeIndex', 'index_type_decl_name', requires='keys_ok()', vac=False, body_first=HASH, attrs=SPIN,
+        rules=[('c10w-declid-closure-contract', {'count': 3}), ('c10w-hoist-entry-key', {'count': 3})],
+        proof=[(r'(?s)self\s*\.global_name_type_map.*?\}\);', 'after', 'proof { assert(self.global_name_type_map@.contains_key(__gk)); }'),
+               (r'(?s)self\s*\.internal_name_type_map.*?\}\);', 'after', 'proof { assert(self.internal_name_type_map@[*workspace_id]@.contains_key(__gk)); }'),
+               (r'(?s)self\s*\.local_name_type_map.*?\}\);', 'after', 'proof { assert(self.local_name_type_map@[*file_id]@.contains_key(__gk)); }')],
+        ensures='''type_other_fields_same(old(self), final(self)),
+            // a name with the declaration's text is registered in the map of its scope (for this id unless the text was taken), nothing else changes
+            itdn_post(%s, *decl_id) /*@C10.type.name-registered-in-its-scope*/''' % NAMES3),
+    'LuaTypeIndex::add_type_decl': fn(
+        TY, 'LuaTypeIndex', 'add_type_decl', attrs=SPIN, body_first=HASH + ' let ghost d0 = type_decl;',
+        requires=TWINV + ''',
+            // the declaration handed in lives in `file_id` (LuaTypeDecl::new(file_id, ..) makes exactly one location, of that file) and a
+            // file-scoped id (`LuaTypeDeclId::file(file_id, ..)`) is declared in its own file: the one call site (decl/docs.rs add_type_decl) does both
+            type_decl.locations@.len() > 0, locs_in(type_decl, file_id),
+            type_decl.id.ident() matches LuaTypeIdentifier::File(g, _) ==> g == file_id''',
+        proof=[(r'self\.index_type_decl_name\(&id\);', 'before', 'let ghost gid = id;'),
+               (r'\}\s*$', 'before', '''proof {
+            lemma_ft_added(old(self).file_types@, self.file_types@, file_id, gid); /*@C10.type.writer-records-decl-for-file.step*/
+            lemma_add_type_decl(old(self), self, file_id, gid, d0); /*@C10.type.writer-wf.step*/
+        }''')],
+        ensures='''type_winv(final(self)) /*@C10.type.writer-wf*/,
+            ft_listed(final(self).file_types@, file_id, type_decl.id) /*@C10.type.writer-records-decl-for-file*/'''),
+    'LuaTypeIndex::add_generic_params': fn(
+        TY, 'LuaTypeIndex', 'add_generic_params', body_first=HASH,
+        requires=TWINV + ', old(self).full_name_type_map@.contains_key(decl_id)',
+        ensures='''type_winv(final(self)) /*@C10.type.writer-wf.add_generic_params*/,
+            final(self).generic_params@ == old(self).generic_params@.insert(decl_id, params)'''),
+    'LuaTypeIndex::add_super_type': fn(
+        TY, 'LuaTypeIndex', 'add_super_type', attrs=SPIN, body_first=HASH,
+        requires=TWINV + ''',
+            // the class is declared in that same file: its id is listed under `file_id` (otherwise `remove(file_id)` never visits supers[decl_id])
+            ft_listed(old(self).file_types@, file_id, decl_id)''',
+        proof=[(r'\}\s*$', 'before', '''proof {
+            let v = self.supers@[decl_id]@; assert(v.drop_last() =~= (if old(self).supers@.contains_key(decl_id) { old(self).supers@[decl_id]@ } else { Seq::empty() }));
+            lemma_add_super(old(self), self, decl_id, file_id); /*@C10.type.writer-wf.add_super_type.step*/
+        }''')],
+        ensures='''type_winv(final(self)) /*@C10.type.writer-wf.add_super_type*/,
+            final(self).supers@.contains_key(decl_id) && final(self).supers@[decl_id]@.len() > 0 && final(self).supers@[decl_id]@.last().file_id == file_id /*@C10.type.super-recorded-with-its-file*/'''),
+    'LuaTypeIndex::bind_type': fn(
+        TY, 'LuaTypeIndex', 'bind_type', attrs=SPIN, body_first=HASH + ' let ghost c0 = cache;',
+        requires=TWINV,
+        proof=[(r'\}\s*$', 'before', 'proof { lemma_bind_type(old(self), self, owner, c0); /*@C10.type.writer-wf.bind_type.step*/ }')],
+        ensures='''type_winv(final(self)) /*@C10.type.writer-wf.bind_type*/,
+            final(self).types@.contains_key(owner),
+            final(self).in_filed_type_owner@.contains_key(owner_file(owner)) && final(self).in_filed_type_owner@[owner_file(owner)]@.contains(owner) /*@C10.type.writer-records-owner-for-file*/'''),
+})
+
+MT = 'metatable/mod.rs'
+ITEMS.update({
+    'LuaMetatableIndex': st(MT, 'LuaMetatableIndex'),
+    'LuaMetatableIndex::new': fn(MT, 'LuaMetatableIndex', 'new', ret='r', ensures='metatable_cofiled(r.metatables@) /*@C10.metatable.writer-cofiled.new*/'),
+    'LuaMetatableIndex::add': fn(
+        MT, 'LuaMetatableIndex', 'add', body_first=HASH,
+        requires='''keys_ok(), metatable_cofiled(old(self).metatables@),
+            // the only call site (analyze_setmetatable) builds both arguments with InFiled::new(file_id, ..) of one and the same file_id
+            table.file_id == metatable.file_id''',
+        ensures='''metatable_cofiled(final(self).metatables@) /*@C10.metatable.writer-cofiled*/,
+            final(self).metatables@ == old(self).metatables@.insert(table, metatable)'''),
+})
+
+LUA_AN = SRC + 'compilation/analyzer/lua/'
+ITEMS.update({
+    'DbIndex': {'src': {'file': DB + 'mod.rs', 'kind': 'struct', 'name': 'DbIndex'},
+                'rules': [('struct-fields', {'keep': ['types_index', 'members_index', 'operator_index', 'metatable_index']})]},
+    'DbIndex::get_metatable_index_mut': fn('mod.rs', 'DbIndex', 'get_metatable_index_mut', ret='r',
+        ensures='*r == old(self).metatable_index, final(self).metatable_index == *final(r), final(self).types_index == old(self).types_index, '
+                'final(self).members_index == old(self).members_index, final(self).operator_index == old(self).operator_index'),
+    'LuaAnalyzer': {'src': {'file': LUA_AN + 'mod.rs', 'kind': 'struct', 'name': 'LuaAnalyzer'}, 'rules': [('struct-fields', {'keep': ['file_id', 'db']}), 'vis-pub']},
+    'analyze_setmetatable::register': {
+        'src': {'kind': 'slice', 'name': 'register', 'in': {'file': LUA_AN + 'metatable.rs', 'kind': 'fn', 'name': 'analyze_setmetatable'},
+                'from': r'let file_id = analyzer\.file_id;', 'to': r'InFiled::new\(file_id, metatable\.get_range\(\)\),\s*\);',
+                'head': 'pub fn register(analyzer: &mut LuaAnalyzer<\'_>, table: LuaExpr, metatable: LuaTableExpr)', 'tail': ''},
+        'requires': 'keys_ok(), metatable_cofiled(old(analyzer).db.metatable_index.metatables@)',
+        'body_first': HASH,
+        'ensures': '''
+            // the only writer of the metatable index registers a table and its metatable under one and the same file: the invariant
+            // that c10_remove2's clause C10.metatable.no-value-points-to-removed-file assumes is kept
+            metatable_cofiled(final(analyzer).db.metatable_index.metatables@) /*@C10.metatable.call-site-keeps-cofiled*/'''},
+})
+
+PR = 'property/mod.rs'
+P_FRAME = 'final(self).in_filed_owner == old(self).in_filed_owner'
+OWN_FILE = 'sem_file(owner_id) matches Some(g) ==> g == file_id'
+def prop_writer(name):
+    return fn(PR, 'LuaPropertyIndex', name, body_first=HASH, attrs=SPIN,
+              requires='''keys_ok(), pwf(old(self)), old(self).id_count < u32::MAX,
+            // an owner id that carries a file (member / declaration / signature) is annotated from its own file
+            ''' + OWN_FILE,
+              proof=[(r'Some\(\(\)\)\s*\}\s*$', 'before',
+                      'proof { lemma_prop_add(old(self).property_owners_map@, pom1, old(self).in_filed_owner@, self.in_filed_owner@, file_id, owner_id); /*@C10.property.every-owner-is-swept.step*/ }'),
+                     (r'self\.in_filed_owner\s*\.entry\(file_id\)', 'before', 'let ghost pom1 = self.property_owners_map@;')],
+              ensures='''pwf(final(self)) /*@C10.property.every-owner-is-swept*/,
+            r is Some ==> pinf_has(final(self).in_filed_owner@, file_id, owner_id) /*@C10.property.writer-records-owner-for-file*/''', ret='r')
+ITEMS.update({
+    'LuaSignatureId': st('signature/signature.rs', 'LuaSignatureId', attrs='#[derive(Clone, Copy, PartialEq, Eq, Hash)]'),
+    'LuaPropertyId': st('property/property.rs', 'LuaPropertyId', attrs='#[derive(Clone, Copy, PartialEq, Eq, Hash, Structural)]'),
+    'LuaPropertyId::new': fn('property/property.rs', 'LuaPropertyId', 'new', ret='r', ensures='r.id == id'),
+    'LuaSemanticDeclId': {'src': {'file': DB + 'semantic_decl.rs', 'kind': 'enum', 'name': 'LuaSemanticDeclId'}, 'attrs': '#[derive(PartialEq, Eq, Hash)]'},
+    'LuaCommonProperty': st('property/property.rs', 'LuaCommonProperty', keep=['visibility']),
+    'LuaPropertyIndex': st(PR, 'LuaPropertyIndex'),
+    'LuaPropertyIndex::new': fn(PR, 'LuaPropertyIndex', 'new', ret='r', ensures='pwf(&r) /*@C10.property.every-owner-is-swept.new*/, r.id_count == 0'),
+    'LuaPropertyIndex::get_or_create_property': fn(
+        PR, 'LuaPropertyIndex', 'get_or_create_property', body_first=HASH, ret='r', attrs=SPIN,
+        rules=[('option-map-match', {'count': 2})],
+        requires='keys_ok(), old(self).id_count < u32::MAX',
+        ensures=P_FRAME + ''',
+            pom_got(old(self).property_owners_map@, final(self).property_owners_map@, owner_id) /*@C10.property.get-or-create-touches-only-that-owner*/,
+            r is None ==> final(self).property_owners_map@ == old(self).property_owners_map@,
+            final(self).id_count >= old(self).id_count'''),
+})
+for _n in ('add_description', 'add_visibility', 'add_source', 'add_deprecated', 'add_version', 'add_see', 'add_other', 'add_decl_feature', 'add_attribute_use'):
+    ITEMS['LuaPropertyIndex::' + _n] = prop_writer(_n)
+ITEMS['LuaPropertyIndex::add_see']['rules'] = [('string-add-assign-push-str', {'count': 2})]
+ITEMS['LuaPropertyIndex::add_owner_map'] = fn(PR, 'LuaPropertyIndex', 'add_owner_map', body_first=HASH, attrs=SPIN, ret='r',
+    requires='''keys_ok(), pwf(old(self)), old(self).id_count < u32::MAX,
+            // both call sites (decl/stats.rs: analyze_func_stat, analyze_local_func_stat) pass a declaration / member and the signature of
+            // its closure, both of the file being analysed
+            (sem_file(source_owner_id) matches Some(g) ==> g == file_id) && (sem_file(same_property_owner_id) matches Some(g) ==> g == file_id)''',
+    ensures='''
+            // every owner with a property_owners_map entry that carries a file is recorded under that file — BOTH owners that share the property
+            pwf(final(self)) /*@C10.property.every-owner-is-swept*/,
+            r is Some ==> pinf_has(final(self).in_filed_owner@, file_id, source_owner_id) /*@C10.property.add_owner_map.records-source-owner*/''',
+    proof=[(r'Some\(\(\)\)\s*\}\s*$', 'before', '''proof {
+            assert forall|g: FileId, x: LuaSemanticDeclId| pinf_has(old(self).in_filed_owner@, g, x) implies pinf_has(self.in_filed_owner@, g, x) by {
+                if g != file_id { assert(self.in_filed_owner@.contains_key(g) == old(self).in_filed_owner@.contains_key(g)); }
+            }
+        }''')])
+
 UNIT = {
     'items': ITEMS,
-    'extra_rules': [],
+    'extra_rules': [
+        ('vec-extend-vec', r'self\.locations\.extend\(other\.locations\)', 'vx_vec_extend(&mut self.locations, other.locations)',
+         'V.extend(W) with V, W: Vec<T> -> vx_vec_extend(&mut V, W), whose body is that very call; it only attaches the std contract '
+         '(the elements of W are appended in order) that vstd lacks for the generic Extend::extend'),
+        ('option-map-match', r'(self\.properties\s*\.get_mut\(&?\w+\))\s*\.map\(\|prop\| \(prop, (\*?\w+)\)\)',
+         r'(match \1 { Some(prop) => Some((prop, \2)), None => None })',
+         'O.map(|x| E) -> match O { Some(x) => Some(E), None => None } (std definition of Option::map; the closure is called at most once, with the payload)'),
+        ('string-add-assign-push-str', r'see_content \+= ("[^"]*"|&\w+);', r'see_content.push_str(\1);',
+         'S += X (S: String, X: &str) -> S.push_str(X): std, impl AddAssign<&str> for String: "This has the same behavior as the push_str method"; '
+         'the text of the `see` tag is not part of any claimed clause'),
+        ('c10w-hoist-entry-key', r'(self\s*\.\w+(?:\s*\.entry\([^()]*\)\s*\.or_default\(\))?)\s*\.entry\(name\.to_string\(\)\)',
+         r'let __key = name.to_string(); let ghost __gk = __key;\n                \1.entry(__key)',
+         'M[.entry(*S).or_default()].entry(name.to_string())... -> let __key = name.to_string(); M[...].entry(__key)...: the key expression is '
+         'evaluated into a local first (it reads only `name`, a SmolStr borrowed from the id, and is independent of the map), so that the '
+         'contract overlay can name the key; `let ghost __gk` is a Verus ghost copy (no run-time meaning)'),
+        ('c10w-declid-closure-contract', r'\|\| decl_id\.clone\(\)', '|| -> (c: LuaTypeDeclId) ensures c == *decl_id { decl_id.clone() }',
+         'contract overlay on the closure handed to Entry::or_insert_with: named result and `ensures` are added, the body expression is '
+         'kept verbatim and Verus checks the ensures against it (clone of the interned id returns an equal id)'),
+    ],
     'allow': [r'external_body', r'uninterp spec fn (ident|text)\(&self\)',
               r'assume_specification<\'a, K: Eq \+ Hash \+ Borrow<Q>, V, S: BuildHasher, A: Allocator, Q: Hash \+ Eq \+ \?Sized>\[ HashMap::<K, V, S, A>::get_mut \]',
               r'assume_specification<\'a, K, V: Default> \[Entry::<\'a, K, V>::or_default\]',
               r'assume_specification<\'a, K, V, A: Allocator, F: FnOnce\(\) -> V> \[Entry::<\'a, K, V, A>::or_insert_with\]',
               r'assume_specification<T: PartialEq> \[<\[T\]>::contains\]'],
     'min_obligations': 20,
-    'mutants': [],
+    'mutants': [
+        # the seeded defect of the independent reviewer: Owner(owner) recorded under the file only when the owner is new
+        {'name': 'member-owner-recorded-only-when-new', 'item': 'LuaMemberIndex::add_member',
+         'pattern': r'self\.add_in_file_object\(file_id, MemberOrOwner::Owner\(owner\.clone\(\)\)\);',
+         'repl': 'if !self.owner_members.contains_key(&owner) { self.add_in_file_object(file_id, MemberOrOwner::Owner(owner.clone())); }',
+         'expect': r'C10\.member\.writer-records-owner-for-file'},
+        {'name': 'member-recorded-under-file-0', 'item': 'LuaMemberIndex::add_member',
+         'pattern': r'let file_id = member\.get_file_id\(\);', 'repl': 'let file_id = FileId { id: 0 };',
+         'expect': r'C10\.member\.writer-records-member-for-file'},
+        {'name': 'set-member-owner-records-nothing', 'item': 'LuaMemberIndex::set_member_owner',
+         'pattern': r'self\.add_in_file_object\(file_id, MemberOrOwner::Owner\(owner\)\);',
+         'repl': 'if false { self.add_in_file_object(file_id, MemberOrOwner::Owner(owner)); }',
+         'expect': r'C10\.member\.writer-records-owner-for-file\.set_member_owner'},
+        {'name': 'add-member-to-owner-leaves-empty-owner', 'item': 'LuaMemberIndex::add_member_to_owner',
+         'pattern': r'member_map\.add_member\(key, LuaMemberIndexItem::One\(id\)\);\s*return Some\(\(\)\);', 'repl': 'return Some(());',
+         'expect': r'C10\.member\.(every-item-is-swept|add_member_to_owner\.touches-only-that-owner)'},
+        {'name': 'add-member-to-owner-empties-list', 'item': 'LuaMemberIndex::add_member_to_owner',
+         'pattern': r'ids\.push\(id\);\s*\}\s*\}\s*\}\s*\} else \{', 'repl': 'ids.clear(); } } } } else {',
+         'expect': r'C10\.member\.(every-item-is-swept|add_member_to_owner\.touches-only-that-owner)'},
+        {'name': 'operator-not-listed-under-file', 'item': 'LuaOperatorIndex::add_operator',
+         'pattern': r'self\.in_filed_operator_map\s*\.entry\(id\.file_id\)\s*\.or_default\(\)\s*\.push\(id\);', 'repl': '',
+         'expect': r'C10\.operator\.(writer-wf|writer-records-id-for-file)'},
+        {'name': 'operator-listed-under-file-0', 'item': 'LuaOperatorIndex::add_operator',
+         'pattern': r'\.entry\(id\.file_id\)', 'repl': '.entry(FileId { id: 0 })',
+         'expect': r'C10\.operator\.(writer-wf|writer-records-id-for-file)'},
+        {'name': 'operator-not-filed-under-owner', 'item': 'LuaOperatorIndex::add_operator',
+         'pattern': r'\.entry\(op\)\s*\.or_default\(\)\s*\.push\(id\);', 'repl': '.entry(op).or_default();',
+         'expect': r'C10\.operator\.writer-wf'},
+        {'name': 'type-decl-not-listed-under-file', 'item': 'LuaTypeIndex::add_type_decl',
+         'pattern': r'self\.file_types\.entry\(file_id\)\.or_default\(\)\.push\(id\.clone\(\)\);', 'repl': '',
+         'expect': r'C10\.type\.(writer-wf|writer-records-decl-for-file)'},
+        {'name': 'type-decl-listed-under-file-0', 'item': 'LuaTypeIndex::add_type_decl',
+         'pattern': r'self\.file_types\.entry\(file_id\)', 'repl': 'self.file_types.entry(FileId { id: 0 })',
+         'expect': r'C10\.type\.(writer-wf|writer-records-decl-for-file)'},
+        {'name': 'bind-type-owner-not-listed-under-file', 'item': 'LuaTypeIndex::bind_type',
+         'pattern': r'self\.in_filed_type_owner\s*\.entry\(owner\.get_file_id\(\)\)\s*\.or_default\(\)\s*\.insert\(owner\);', 'repl': '',
+         'expect': r'C10\.type\.(writer-wf\.bind_type|writer-records-owner-for-file)'},
+        {'name': 'bind-type-owner-listed-under-file-0', 'item': 'LuaTypeIndex::bind_type',
+         'pattern': r'\.entry\(owner\.get_file_id\(\)\)', 'repl': '.entry(FileId { id: 0 })',
+         'expect': r'C10\.type\.(writer-wf\.bind_type|writer-records-owner-for-file)'},
+        {'name': 'type-owner-file-of-wrong-variant', 'item': 'LuaTypeOwner::get_file_id',
+         'pattern': r'LuaTypeOwner::Member\(id\) => id\.file_id', 'repl': 'LuaTypeOwner::Member(id) => FileId { id: 0 }',
+         'expect': r'C10\.type\.owner-file-is-the-file-of-its-id'},
+        {'name': 'super-recorded-with-file-0', 'item': 'LuaTypeIndex::add_super_type',
+         'pattern': r'InFiled::new\(file_id, super_type\)', 'repl': 'InFiled::new(FileId { id: 0 }, super_type)',
+         'expect': r'C10\.type\.(writer-wf\.add_super_type|super-recorded-with-its-file)'},
+        {'name': 'file-scoped-name-registered-under-file-0', 'item': 'LuaTypeIndex::index_type_decl_name',
+         'pattern': r'\.entry\(\*file_id\)', 'repl': '.entry(FileId { id: 0 })',
+         'expect': r'C10\.type\.name-registered-in-its-scope'},
+        {'name': 'property-description-owner-not-recorded', 'item': 'LuaPropertyIndex::add_description',
+         'pattern': r'(self\.in_filed_owner\s*\.entry\(file_id\)\s*\.or_default\(\))\s*\.insert\(owner_id\);', 'repl': r'\1;',
+         'expect': r'C10\.property\.(every-owner-is-swept|writer-records-owner-for-file)'},
+        {'name': 'property-attribute-owner-recorded-under-file-0', 'item': 'LuaPropertyIndex::add_attribute_use',
+         'pattern': r'self\.in_filed_owner\s*\.entry\(file_id\)', 'repl': 'self.in_filed_owner.entry(FileId { id: 0 })',
+         'expect': r'C10\.property\.(every-owner-is-swept|writer-records-owner-for-file)'},
+        # valid on a tree with the repair of FINDING_property.md applied (the pattern is the repaired text): reverting the repair
+        {'name': 'property-owner-map-records-only-source-owner', 'item': 'LuaPropertyIndex::add_owner_map',
+         'pattern': r'owners\.insert\(same_property_owner_id\);', 'repl': '',
+         'expect': r'C10\.property\.every-owner-is-swept'},
+        {'name': 'property-get-or-create-registers-other-owner', 'item': 'LuaPropertyIndex::get_or_create_property',
+         'pattern': r'self\.property_owners_map\.insert\(owner_id\.clone\(\), id\);',
+         'repl': 'self.property_owners_map.insert(LuaSemanticDeclId::LuaDecl(LuaDeclId { file_id: FileId { id: 0 }, position: TextSize { raw: 0 } }), id);',
+         'expect': r'C10\.property\.get-or-create-touches-only-that-owner'},
+        {'name': 'bookkeeping-replaces-the-files-set', 'item': 'LuaMemberIndex::add_in_file_object',
+         'pattern': r'self\.in_filed\s*\.entry\(file_id\)\s*\.or_default\(\)\s*\.insert\(member_or_owner\);',
+         'repl': 'let mut s = HashSet::new(); s.insert(member_or_owner); self.in_filed.insert(file_id, s);',
+         'expect': r'C10\.member\.bookkeeping-records-object-under-file'},
+    ],
     'trusted': [],
     'not_covered': [],
     'samples': [],
